@@ -1345,6 +1345,8 @@ fn check_c08(w: &World, s: &Step, ok: bool, pre: &Obs, post: &Obs, at: &str, ctx
         return Ok(());
     }
     check_grant_expiry(prop, s, ok, pre, post, at)?;
+    // (who is exempt from allowances - an admin - is decided by the list the last successful UpdateAdmins installed)
+    check_update_admins_applied(prop, s, ok, post, at)?;
     let sender = w.senders[s.sender].as_str();
     let admin = pre.is_admin(sender);
     // who may see its allowance / permissions change in this call, and to what
